@@ -66,7 +66,7 @@ func C09(r *drv.Run) {
 	if !quick(r) {
 		nprog, ntext = 250000, 12
 	}
-	r.Rule = "accepted programs from every generator (core, regex, named loops, whole-*, amount clauses, replace), the hand corpus and repository examples, one-token mutants of those that still compile (empty bodies, exactly 0, odd-but-legal shapes) and terminating transforms/predicates doing arithmetic on the match text; inputs: empty, program-derived matches and every kind of prefix/edit (input ends inside every construct), bytes >= 0x80, \\r\\n, fixed hostile texts; plus RunFiles on empty and tiny files. Monitor: panic / fatal error / CPU or heap guard in Run or RunFiles. Non-trivial = the run executed >= 1 VM instruction on a non-empty input or ran on the empty input; distinct by (program, input)."
+	r.Rule = "accepted programs from every generator (core, regex, named loops, whole-*, amount clauses, replace), the hand corpus and repository examples, one-token mutants of those that still compile (empty bodies, exactly 0, odd-but-legal shapes) and terminating transforms/predicates doing arithmetic on the match text; inputs: empty, program-derived matches and every kind of prefix/edit (input ends inside every construct), bytes >= 0x80, \\r\\n, fixed hostile texts; plus RunFiles on empty and tiny files; plus linear-time find/replace programs (literals, classes, amount clauses, a transform building a 5 000-byte replacement) over inputs of 4 097 .. 140 000 bytes with no, one or several far-apart matches, through Run and through RunFiles in every mode. Monitor: panic / fatal error / CPU or heap guard in Run or RunFiles. Non-trivial = the run executed >= 1 VM instruction on a non-empty input or ran on the empty input; distinct by (program, input)."
 	r.Assumptions = []string{
 		"scope as stated: process code terminates (generated loops carry an incrementing counter), subroutines consume before recursing",
 		"a case exceeding the VM step budget is skipped (termination is C10's claim); a CPU/heap guard trip outside the VM is a violation",
@@ -135,6 +135,7 @@ func C09(r *drv.Run) {
 		"set f to transform return 10 / match end\nreplace all digit with f",
 		"set f to transform if match == 'x' then set n to 1 end return n - '1' end\nreplace all 'a' with f")
 	total := nprog + len(mutants)
+	c09Long(r, filesDir)
 	r.Exec(total, drv.ExecOpts{Batch: 200}, func(i int) *drv.Item {
 		rng := gen.Derive(r.Seed, "C09", i)
 		var src string
@@ -242,8 +243,100 @@ func C09(r *drv.Run) {
 	})
 	if r.NViolations() == 0 {
 		expensiveFloor(r)
+		if r.Counter("long_input_runs") == 0 {
+			r.Inconclusive("coverage floor: no run on a long input")
+		}
 		if r.Counter("runfiles_calls") == 0 || r.Counter("runs_on_empty_input") == 0 {
 			r.Inconclusive("coverage floor: runfiles/empty-input runs missing")
 		}
 	}
+}
+
+// c09Long: inputs far longer than any buffer in the library (4096-byte reader window and lexer buffer, the
+// in-memory output stream of replace commands), with unmatched stretches and single writes beyond those sizes.
+func c09Long(r *drv.Run, filesDir string) {
+	progs := []string{
+		"replace all 'x' with 'y'", "replace all 'x' with ''", "replace all 'x' with value value '<' matchNumber '>' value",
+		"find all 'x'", "replace top 1 'x' with 'y'", "replace last 1 'x' with 'yy'", "replace skip 1 take 1 'x' with ''",
+		"replace all 'x' digit with 'D'", "replace all in 'x', 'X' with '-'", "replace all 'zq' with 'never'",
+		"set f to transform set s to '' set i to 0 loop if i >= 500 then break end set s to s + 'abcdefghij' set i to i + 1 end return s end\nreplace all 'x' with f",
+		"replace all 'x' with 'y'\nreplace all 'x' with 'zz'\nfind all 'x'",
+		"replace all between 1 and 300 'a' with 'A'",
+	}
+	sizes := []int{4097, 5000, 8193, 20000, 70000, 140000}
+	if quick(r) {
+		sizes = []int{4097, 8193, 20000, 70000}
+	}
+	filler := []byte("a b\nc1 ")
+	var texts [][]byte
+	for si, n := range sizes {
+		rng := gen.Derive(r.Seed, "C09long", si)
+		mk := func(plant []int) []byte {
+			b := make([]byte, n)
+			for i := range b {
+				b[i] = filler[rng.Intn(len(filler))]
+			}
+			for _, p := range plant {
+				if p >= 0 && p < n {
+					b[p] = 'x'
+				}
+			}
+			return b
+		}
+		texts = append(texts, mk(nil), mk([]int{n / 2}), mk([]int{0, n - 1}), mk([]int{n - 1}), mk([]int{4096, 4097, n - 4097}), mk([]int{5, n/3 + 1, 2*n/3 + 7}))
+	}
+	var paths []string
+	for k, b := range texts {
+		p := filepath.Join(filesDir, fmt.Sprintf("long%d.txt", k))
+		os.WriteFile(p, b, 0o644)
+		paths = append(paths, p)
+	}
+	modes := []string{"", "NOTHING", "NEW", "OVERWRITE"}
+	r.Exec(len(progs)*len(modes), drv.ExecOpts{Batch: 2}, func(i int) *drv.Item {
+		src := progs[i%len(progs)]
+		mode := modes[i/len(progs)]
+		c := wire.Case{Op: "run", Src: []byte(src), Texts: texts, StepBudget: 50_000_000}
+		if mode != "" {
+			ps := paths
+			if mode != "NOTHING" {
+				// private copies: the run rewrites them
+				d := filepath.Join(filesDir, fmt.Sprintf("long-%s-%d", mode, i))
+				os.MkdirAll(d, 0o755)
+				ps = nil
+				for k, b := range texts {
+					p := filepath.Join(d, fmt.Sprintf("l%d.txt", k))
+					os.WriteFile(p, b, 0o644)
+					ps = append(ps, p)
+				}
+			}
+			c = wire.Case{Op: "runfiles", Src: []byte(src), Files: ps, Mode: mode, StepBudget: 50_000_000}
+		}
+		return &drv.Item{Case: c, Check: func(res *wire.Result) {
+			if crashOrGuard(r, res, &c, src, false) {
+				return
+			}
+			if res.Compile == nil || !res.Compile.OK {
+				r.Inconclusive("fixed long-input program rejected: " + src)
+				return
+			}
+			for ti := range res.Runs {
+				run := &res.Runs[ti]
+				r.Eval(1)
+				if run.Panic != nil {
+					d := map[string]any{"mode": mode}
+					if c.Op == "run" && ti < len(texts) {
+						d["text_length"] = len(texts[ti])
+					}
+					r.Violate(&drv.Violation{Sig: "run-panic:" + run.Panic.Frame, Panic: run.Panic.Msg, Frame: run.Panic.Frame, Src: src, Case: &c, Detail: d})
+					continue
+				}
+				if run.Budget != "" {
+					r.Count("skipped_expensive", 1)
+					continue
+				}
+				r.Count("long_input_runs", 1)
+				r.Nontrivial(fmt.Sprintf("long|%s|%s|%d", src, mode, ti))
+			}
+		}}
+	})
 }
